@@ -30,6 +30,8 @@ type c07In struct {
 	Secret model.Bytes     `json:"shared_secret"`
 	SPIi   uint64          `json:"spi_i"`
 	SPIr   uint64          `json:"spi_r"`
+	// Carved: nonces and shared secret are views into one buffer (Ni|Nr|g^ir back to back), as a caller may well hold them
+	Carved bool `json:"arguments_share_one_buffer,omitempty"`
 }
 
 func newInfoSA(s bridge.SuiteSel) *security.IKESAKey {
@@ -113,6 +115,7 @@ var c07Derive = probe.Define("C07", "derive", func(t *rapid.T) c07In {
 		Nonce:  gen.BytesLen(t, "nonces", 1, 512, 1, 32, 64, 65, 512),
 		Secret: c07Secret(t),
 		SPIi:   rapid.Uint64().Draw(t, "spii"), SPIr: rapid.Uint64().Draw(t, "spir"),
+		Carved: rapid.IntRange(0, 2).Draw(t, "carved") == 2,
 	}
 }, func(in c07In) probe.Outcome {
 	suites := []bridge.SuiteSel{in.Suite}
@@ -131,8 +134,17 @@ var c07Derive = probe.Define("C07", "derive", func(t *rapid.T) c07In {
 	for _, s := range suites {
 		sa := newInfoSA(s)
 		nonce, secret := append([]byte(nil), in.Nonce...), append([]byte(nil), in.Secret...)
+		unchanged := func() error { return nil }
+		if in.Carved {
+			var v [][]byte
+			v, unchanged = probe.Carve(in.Nonce, in.Secret)
+			nonce, secret = v[0], v[1]
+		}
 		if err := probe.Try(func() error { return sa.GenerateKeyForIKESA(nonce, secret, in.SPIi, in.SPIr) }); err != nil {
 			return probe.Fail("GenerateKeyForIKESA (%+v): %v", s, err)
+		}
+		if err := unchanged(); err != nil {
+			return probe.Fail("GenerateKeyForIKESA(Ni|Nr, g^ir held back to back in one buffer): %v", err)
 		}
 		want := ref.DeriveIKE(ref.Prfs[s.Prf], ref.Integs[s.Integ], ref.Encrs[s.Encr], in.Nonce, in.Secret, in.SPIi, in.SPIr)
 		if err := checkSAKeys(sa, s, want); err != nil {
@@ -164,6 +176,9 @@ var c07Derive = probe.Define("C07", "derive", func(t *rapid.T) c07In {
 	}
 	if in.All {
 		labels = append(labels, "all-54-combinations")
+	}
+	if in.Carved {
+		labels = append(labels, "arguments-share-one-buffer")
 	}
 	return probe.Outcome{NonTrivial: true, Labels: labels}
 })
